@@ -423,7 +423,11 @@ class CompositeFrontend(ConstrainedFrontend):
                 continue
 
             log.debug("... simplifying child solver %r", s)
+            # copy-on-write: the child may be shared with other branches, whose constraint lists must stay in sync
+            unchecked = s in self._unchecked_solvers
+            s = self._claim(s)
             s.simplify()
+            self._store_child(s, invalidate_cache=unchecked)
             results = self._split_child(s)
             for ns in results:
                 if isinstance(ns, SimplifySkipperMixin):
